@@ -6,6 +6,7 @@ from harness import graphs as G
 from harness import strategies as S
 from harness.core import Acc, Violation, fr, lib, must, must_raise
 from harness.hyp import job_seed, run_property, scaled
+from props.gcommon import npint
 
 PROP = "C18"
 RULE = ("Every DAG on p<=4 nodes x every requested count 0..max+1 x 3 seeds (exhaustive grid), and Hypothesis DAGs p<=9 (binary, "
@@ -121,7 +122,7 @@ def check(case):
         return G.rows_from_matrix(res)
 
     if case["op"] == "remove":
-        o = lib(utils.remove_edges, A, k, **seed_kw)
+        o = lib(utils.remove_edges, A, npint(k, k + len(A)), **seed_kw)
         if k > m:
             must_raise(o, ValueError, "remove_edges(k > #edges)")
             lab.append("infeasible")
@@ -141,7 +142,7 @@ def check(case):
                 lab.append("boundary_max")
             lab.append("feasible")
     else:
-        o = lib(utils.add_edges, A, k, **seed_kw)
+        o = lib(utils.add_edges, A, npint(k, k + len(A) + 1), **seed_kw)
         if k > cap:
             must_raise(o, ValueError, "add_edges(k > capacity)")
             lab.append("infeasible")
